@@ -347,6 +347,10 @@ class PCACD(StreamingDetector):
 
         """
         js = jensenshannon(density_reference["density"], density_test["density"])
+        # when the two density vectors coincide up to rounding, the squared
+        # distance can come out marginally negative and scipy returns nan
+        if np.isnan(js):
+            js = 0.0
         return js
 
     @staticmethod
